@@ -15,9 +15,19 @@ import (
 	"github.com/hashicorp/consul/agent/consul/fsm"
 	"github.com/hashicorp/consul/agent/consul/state"
 	"github.com/hashicorp/consul/agent/consul/stream"
+	"github.com/hashicorp/consul/agent/netutil"
 	"github.com/hashicorp/consul/agent/structs"
 	raftstorage "github.com/hashicorp/consul/internal/storage/raft"
 )
+
+// The state store asks the LOCAL AGENT (HTTP /v1/agent/self) for its bind address to choose between
+// IPv4 and IPv6 virtual IPs (netutil.IsDualStack in state/catalog.go addIPOffset). In the sandbox no
+// agent listens, so every virtual-IP assignment would fail. consul's own tests replace the lookup
+// with netutil.GetAgentBindAddrFunc; the monitors do the same: every replica is "an agent bound to
+// an IPv4 address" (identically configured servers, as the properties require).
+func init() {
+	netutil.GetAgentBindAddrFunc = netutil.GetMockGetAgentBindAddrFunc("0.0.0.0")
+}
 
 type handle struct {
 	apply func(msg []byte) (any, error)
